@@ -12,6 +12,7 @@ import TuModel.Drive.DictD
 import TuModel.Drive.BpeTrainD
 import TuModel.Drive.GroupsD
 import TuModel.Drive.LoaderD
+import TuModel.Drive.CharStringD
 open Tu.Drive
 
 def handle (line : String) : String :=
@@ -21,7 +22,7 @@ def handle (line : String) : String :=
     match rest.mapM String.toNat? with
     | none => "bad-request"
     | some args =>
-      match (((((((((((((textD op args).orElse (fun _ => editD op args)).orElse (fun _ => matchD op args)).orElse (fun _ => windowsD op args)).orElse (fun _ => tokD op args)).orElse (fun _ => batchD op args)).orElse (fun _ => multiGenD op args)).orElse (fun _ => pipeD op args)).orElse (fun _ => metricsD op args)).orElse (fun _ => corruptD op args)).orElse (fun _ => dictD op args)).orElse (fun _ => bpeTrainD op args)).orElse (fun _ => groupsD op args)).orElse (fun _ => loaderD op args) with
+      match ((((((((((((((textD op args).orElse (fun _ => editD op args)).orElse (fun _ => matchD op args)).orElse (fun _ => windowsD op args)).orElse (fun _ => tokD op args)).orElse (fun _ => batchD op args)).orElse (fun _ => multiGenD op args)).orElse (fun _ => pipeD op args)).orElse (fun _ => metricsD op args)).orElse (fun _ => corruptD op args)).orElse (fun _ => dictD op args)).orElse (fun _ => bpeTrainD op args)).orElse (fun _ => groupsD op args)).orElse (fun _ => loaderD op args)).orElse (fun _ => charStringD op args) with
       | some r => r
       | none => "unknown-op"
 
